@@ -216,18 +216,18 @@ func goroutineSection(all string) string {
 // state shared between the operation goroutine and the monitor
 
 var (
-	monActive   int32  // 1 while an operation is in flight
-	monSeq      int64  // its sequence number within the request
-	monGen      int64  // counts operations of the whole process (what the monitor compares)
-	monLen      int64  // length of the bytes handed to it
-	monAlloc0   uint64 // allocation counter at its start
-	monItem     int64
-	monOpName   atomic.Value // string
-	monConfirm  int32
-	monKnown    atomic.Value // map[string]bool
-	statusMem   []byte
-	probeOut    *bufio.Writer
-	tripped     int32
+	monActive  int32  // 1 while an operation is in flight
+	monSeq     int64  // its sequence number within the request
+	monGen     int64  // counts operations of the whole process (what the monitor compares)
+	monLen     int64  // length of the bytes handed to it
+	monAlloc0  uint64 // allocation counter at its start
+	monItem    int64
+	monOpName  atomic.Value // string
+	monConfirm int32
+	monKnown   atomic.Value // map[string]bool
+	statusMem  []byte
+	probeOut   *bufio.Writer
+	tripped    int32
 )
 
 func cpuNow() int64 {
